@@ -144,7 +144,12 @@ def parseG (base2k n size : Nat) (s : String) : Core.GLWE :=
 def showG (g : Core.GLWE) : String :=
   ".".intercalate ((g.cols.flatten.flatten).map toString)
 
-def parseLOp (t : String) : Option LOp :=
+/-- the limbs of a ZNX plaintext operand: `pt.size` limbs of `n` coefficients, `.`-joined (`-`: none) -/
+def parsePt (n : Nat) (pt : Pt) (s : String) : List (List Int) :=
+  if s == "-" || s.isEmpty then []
+  else chunks n pt.size (((s.splitOn ".").filter (fun t => !t.isEmpty)).map int!)
+
+def parseLOp (n : Nat) (t : String) : Option LOp :=
   match t.splitOn "," with
   | ["add", d, a, b] => some (.add false (nat! d) (nat! a) (nat! b))
   | ["sub", d, a, b] => some (.add true (nat! d) (nat! a) (nat! b))
@@ -159,11 +164,16 @@ def parseLOp (t : String) : Option LOp :=
   | ["rescale", d, k, a] => some (.rescale (nat! d) (nat! k) (nat! a))
   | ["rescale_assign", d, k] => some (.rescaleAssign (nat! d) (nat! k))
   | ["align", a, b] => some (.align (nat! a) (nat! b))
+  | ["add_pt_znx", d, a, pd, pb, pq, l] => some (.addPt false (nat! d) (nat! a) ⟨⟨nat! pd, nat! pb⟩, nat! pq⟩ (parsePt n ⟨⟨nat! pd, nat! pb⟩, nat! pq⟩ l))
+  | ["sub_pt_znx", d, a, pd, pb, pq, l] => some (.addPt true (nat! d) (nat! a) ⟨⟨nat! pd, nat! pb⟩, nat! pq⟩ (parsePt n ⟨⟨nat! pd, nat! pb⟩, nat! pq⟩ l))
+  | ["add_pt_znx_assign", d, pd, pb, pq, l] => some (.addPtAssign false (nat! d) ⟨⟨nat! pd, nat! pb⟩, nat! pq⟩ (parsePt n ⟨⟨nat! pd, nat! pb⟩, nat! pq⟩ l))
+  | ["sub_pt_znx_assign", d, pd, pb, pq, l] => some (.addPtAssign true (nat! d) ⟨⟨nat! pd, nat! pb⟩, nat! pq⟩ (parsePt n ⟨⟨nat! pd, nat! pb⟩, nat! pq⟩ l))
   | _ => none
 
 def LOp.dstSlot : LOp → Nat
   | .add _ d _ _ | .addAssign _ d _ | .neg d _ | .negAssign d | .mulPow2 d _ _ | .mulPow2Assign d _
-  | .divPow2 d _ _ | .divPow2Assign d _ | .rescale d _ _ | .rescaleAssign d _ | .align d _ => d
+  | .divPow2 d _ _ | .divPow2Assign d _ | .rescale d _ _ | .rescaleAssign d _ | .align d _
+  | .addPt _ d _ _ _ | .addPtAssign _ d _ _ => d
 
 def showSlot (p : DPool) (d : Nat) : String :=
   match p[d]? with
@@ -180,7 +190,7 @@ one of `stepR`), continuing after `Err` with the pool the failed call leaves -/
 def runData (env : Env) (N : Nat) : DPool → List String → List String → List String
   | _, [], acc => acc.reverse
   | pool, t :: rest, acc =>
-    match parseLOp t with
+    match parseLOp N t with
     | none => ("bad-op" :: acc).reverse
     | some op =>
       match dstep env N pool op with
